@@ -49,8 +49,9 @@ Enter(call) ==
   THEN /\ result' = done[call]
        /\ UNCHANGED <<done, pending, stack, name, runs, nmods, raised>>
   ELSE IF call \in pending
-  THEN /\ raised' = TRUE /\ stack' = <<>> /\ result' = NoMod     \* "circular dependency"; pending is NOT cleaned (as implemented)
-       /\ UNCHANGED <<done, pending, name, runs, nmods>>
+  THEN /\ raised' = TRUE /\ stack' = <<>> /\ result' = NoMod     \* "circular dependency": every open call unwinds
+       /\ pending' = pending \ {stack[k].call : k \in 1..Len(stack)}
+       /\ UNCHANGED <<done, name, runs, nmods>>
   ELSE /\ stack' = Append(stack, [call |-> call, sub |-> NoMod])
        /\ pending' = pending \cup {call}
        /\ result' = NoMod
@@ -85,11 +86,12 @@ Finish ==
            /\ result' = IF Len(stack) = 1 THEN m ELSE result
            /\ raised' = raised
 
-(* user code in a body raises: the exception unwinds every frame; as implemented nothing is cleaned up *)
+(* user code in a body raises: the exception unwinds every open call, each of which leaves `pending` so that it can be run again *)
 BodyRaise ==
   /\ MayRaise /\ stack # <<>> /\ ~raised
   /\ raised' = TRUE /\ stack' = <<>> /\ result' = NoMod
-  /\ UNCHANGED <<done, pending, name, runs, nmods>>
+  /\ pending' = pending \ {stack[k].call : k \in 1..Len(stack)}
+  /\ UNCHANGED <<done, name, runs, nmods>>
 
 (* the exception has propagated to the caller; the next top-level call may start *)
 Recover == raised /\ raised' = FALSE /\ UNCHANGED <<done, pending, stack, name, runs, nmods, result>>
@@ -101,5 +103,5 @@ Distinct   == \A c1, c2 \in DOMAIN done :
                 (c1 # c2 /\ c1[1] = c2[1] /\ done[c1] = done[c2]) => Kind[c1[1]] = "pass" /\ FALSE
 NameStable == [][\A m \in DOMAIN name : m \in DOMAIN name' /\ name'[m] = name[m]]_gvars
 NameInjective == \A m1, m2 \in DOMAIN name : name[m1] = name[m2] => m1 = m2
-NoStalePending == (stack = <<>> /\ ~raised) => pending = {}
+NoStalePending == (stack = <<>>) => pending = {}
 =============================================================================
